@@ -44,6 +44,11 @@ def stages(tier, rng, only=None):
         + [ac.two_cycles(rng) for _ in range(8 if tier == "quick" else 60)]
         + [ac.cycle_plus(rng) for _ in range(60 if tier == "quick" else 600)],
         algorun.ALL_CONFIGS, SCHEMES, namings=ac.NAMINGS3, every={k: 2 * v for k, v in COSTLY.items()}), _nt))
+    ext = g[::6] + [ac.random_dataset(rng, 6, 5, nmin=2) for _ in range(100 if tier == "quick" else 1000)]
+    out.append(ac.stage("gigantic_penalties", PID, lambda: ac.scaled_cases(ext, algorun.ALL_CONFIGS, SCHEMES, -70,
+                                                                           flags=(1, 0), every=COSTLY), _nt))
+    out.append(ac.stage("microscopic_penalties", PID, lambda: ac.scaled_cases(ext, algorun.ALL_CONFIGS, SCHEMES, 40,
+                                                                              flags=(1, 0), every=COSTLY), _nt))
     from .C11 import stages as kwik_stages
     for st in kwik_stages(tier, rng, prop=PID):
         if st.name in ("grid3x2", "grid4x2sample", "grid4x2", "random5"):
